@@ -41,6 +41,8 @@ func variantByName(world, name string) (Variant, bool) {
 		return simrunAsm, true
 	case simrunAsmRaceBuild.Name:
 		return simrunAsmRaceBuild, true
+	case simrun386.Name:
+		return simrun386, true
 	case "asm-go1.26":
 		return simStall, true
 	}
